@@ -65,7 +65,7 @@ SELECTOR = re.compile(r"Option::<T>::(unwrap_or|unwrap_or_else|or|or_else|xor|ma
                       r"Result::<T, E>::(unwrap_or|unwrap_or_else|or|or_else)$|cmp::(min|max|Ord::min|Ord::max)")
 
 
-def fields_read(fn, blocks, variant, F=None):
+def fields_read(fn, blocks, variant, F=None, VISITS=VISITS, selections=True):
     """names of the fields of `variant` whose value flows (through refs, iteration, projections) into a recursive
     visit call, or into an iterator adaptor whose closure makes such a call, inside the given blocks"""
     seeds = {}
@@ -115,7 +115,7 @@ def fields_read(fn, blocks, variant, F=None):
                         changed = True
                     # one of several children, not all of them: a second assignment that brings another child, or a copy of such a value
                     sites.setdefault(l, {})[(b, id(s_))] = frozenset(src)
-                    if (len(set(sites[l].values())) > 1 and not s_["place"]["p"]) or any(p["l"] in either for p in places):
+                    if selections and ((len(set(sites[l].values())) > 1 and not s_["place"]["p"]) or any(p["l"] in either for p in places)):
                         if l not in either:
                             either.add(l)
                             changed = True
@@ -131,7 +131,7 @@ def fields_read(fn, blocks, variant, F=None):
                         src |= taint.get(p["l"], set())
                 c = callee(t) or callee_def(t) or ""
                 mixed = any(op_place(a) and op_place(a)["l"] in either for a in t["args"])
-                if src and (mixed or (len(src) > 1 and SELECTOR.search(c))):
+                if selections and src and (mixed or (len(src) > 1 and SELECTOR.search(c))):
                     # `a.unwrap_or(b)`, `a.or(b)`: the result is one of the children; visiting it visits neither for sure
                     if c in VISITS:
                         continue
@@ -160,13 +160,14 @@ def fields_read(fn, blocks, variant, F=None):
     return visited
 
 
-def visitor_completeness(F, res, fn_name, adt_short):
+def visitor_completeness(F, res, fn_name, adt_short, rule="S1", fn_path=None, visits=VISITS, skips=None, what="visits", floor=None, selections=True):
     adt = "ide::def::module::" + adt_short
-    fn = F.fn(SC + fn_name)
+    fn = F.fn(fn_path or (SC + fn_name))
+    REVIEWED_SKIPS_ = REVIEWED_SKIPS if skips is None else skips
     d = FL.Defs(fn)
     b0, t = match_on(fn, d, adt)
     if t is None:
-        res.anchor_missing("S1", "match on %s in %s" % (adt_short, fn_name))
+        res.anchor_missing(rule, "match on %s in %s" % (adt_short, fn_name))
         return
     dm = F.discr_map(adt)
     inv = {n: v for v, n in dm.items()}
@@ -182,17 +183,17 @@ def visitor_completeness(F, res, fn_name, adt_short):
         target = tg.get(inv[v["name"]])
         has_arm = target is not None and target != t["otherwise"]
         if not has_arm:
-            res.ob("S1", "%s/%s" % (adt_short, v["name"]), "%s::%s has children %s and an arm in %s that visits them" % (adt_short, v["name"], kids, fn_name),
-                   False, where=fn.loc(t["ln"]), how="falls into the catch-all arm: its children get no scope")
+            res.ob(rule, "%s/%s" % (adt_short, v["name"]), ("%s::%s has children %s and an arm in %s that " + what + " them") % (adt_short, v["name"], kids, fn_name),
+                   False, where=fn.loc(t["ln"]), how="falls into the catch-all arm: its children are never reached")
             continue
         region = reach[target] - common
-        read = fields_read(fn, region, v["name"], F)
-        missing = [k for k in kids if k not in read and (adt_short, v["name"], k) not in REVIEWED_SKIPS]
-        skipped = [k for k in kids if k not in read and (adt_short, v["name"], k) in REVIEWED_SKIPS]
-        res.ob("S1", "%s/%s" % (adt_short, v["name"]), "%s::%s has children %s and an arm in %s that visits them" % (adt_short, v["name"], kids, fn_name),
-               not missing, where=fn.loc(t["ln"]), how="children that flow into a recursive visit: %s%s" % (sorted(read), ("; reviewed skip: %s (%s)" % (skipped, REVIEWED_SKIPS[(adt_short, v["name"], skipped[0])])) if skipped else "")
+        read = fields_read(fn, region, v["name"], F, visits, selections)
+        missing = [k for k in kids if k not in read and (adt_short, v["name"], k) not in REVIEWED_SKIPS_]
+        skipped = [k for k in kids if k not in read and (adt_short, v["name"], k) in REVIEWED_SKIPS_]
+        res.ob(rule, "%s/%s" % (adt_short, v["name"]), ("%s::%s has children %s and an arm in %s that " + what + " them") % (adt_short, v["name"], kids, fn_name),
+               not missing, where=fn.loc(t["ln"]), how="children that flow into a recursive visit: %s%s" % (sorted(read), ("; reviewed skip: %s (%s)" % (skipped, REVIEWED_SKIPS_[(adt_short, v["name"], skipped[0])])) if skipped else "")
                if not missing else "children that never reach a recursive visit in the arm: %s" % missing, reviewed=bool(skipped) and not missing)
-    res.floor("%s variants with children" % adt_short, nchild, 10 if adt_short == "Expr" else 5)
+    res.floor("%s variants with children (%s)" % (adt_short, fn_name), nchild, floor or (10 if adt_short == "Expr" else 5))
 
 
 _WRAP = {}
